@@ -24,6 +24,10 @@ End Split.
 (* ------------------------------------------------------------------ local well-formedness *)
 Definition wf_op (o : sop) : Prop := match o with Release n => 0 <= n | _ => True end.
 
+(* operations of the sliding semaphore that run the "touch upon all threads" loop *)
+Definition is_slsig (o : sop) : Prop :=
+  match o with SlSignal _ | SlSignalAll | SlSetMaxDiff _ _ => True | _ => False end.
+
 (* the program counter belongs to the operation at the head of todo *)
 Definition pc_ok (l : sem_l) : Prop :=
   match pc l with
@@ -32,12 +36,12 @@ Definition pc_ok (l : sem_l) : Prop :=
   | Susp (CSl u) | Blk (CSl u) => cur_op l = SlWait u /\ todo l <> []
   | TSleep n => cur_op l = TimedAcquire n /\ todo l <> []
   | SigLoop true _ | ResWait _ true _ => (exists n, cur_op l = Release n) /\ todo l <> []
-  | SigLoop false _ | ResWait _ false _ => (exists x, cur_op l = SlSignal x) /\ todo l <> []
+  | SigLoop false _ | ResWait _ false _ => is_slsig (cur_op l) /\ todo l <> []
   end.
 Definition lwf (l : sem_l) : Prop := Forall wf_op (todo l) /\ pc_ok l.
 
 (* what a log entry must satisfy: the return value says exactly what happened to the count *)
-Definition ev_ok (md : Z) (e : sev) : Prop :=
+Definition ev_ok (e : sev) : Prop :=
   match ev_op e with
   | TryAcquire => (ev_res e = true -> 1 <= ev_avail e /\ ev_taken e = 1) /\
                   (ev_res e = false -> ev_avail e < 1 /\ ev_taken e = 0)
@@ -46,9 +50,9 @@ Definition ev_ok (md : Z) (e : sev) : Prop :=
   | Acquire n => ev_res e = true /\ ev_taken e = n /\ n <= ev_avail e
   | TimedAcquire n => (ev_res e = true -> ev_taken e = n /\ n <= ev_avail e) /\ (ev_res e = false -> ev_taken e = 0)
   | Release _ => ev_res e = true /\ ev_taken e = 0
-  | SlWait u => ev_res e = true /\ ev_taken e = 0 /\ u - md <= ev_lower e
-  | SlTryWait u => ev_taken e = 0 /\ (ev_res e = true <-> u - md <= ev_lower e)
-  | SlSignal x => ev_res e = true /\ ev_taken e = 0
+  | SlWait u => ev_res e = true /\ ev_taken e = 0 /\ u - ev_maxd e <= ev_lower e
+  | SlTryWait u => ev_taken e = 0 /\ (ev_res e = true <-> u - ev_maxd e <= ev_lower e)
+  | SlSignal _ | SlSignalAll | SlSetMaxDiff _ _ => ev_res e = true /\ ev_taken e = 0
   | StaleResume _ => True
   end.
 
@@ -57,10 +61,8 @@ Definition sum_taken (lg : list sev) : Z := fold_right (fun e a => ev_taken e + 
 Record GInv (v0 lo0 md : Z) (g : sem_g) : Prop := {
   gi_cons : value g + acquired g = v0 + released g;
   gi_nonneg : 0 <= value g;
-  gi_md : maxd g = md;
-  gi_lower : lo0 <= lower g;
   gi_sum : acquired g = sum_taken (slog g);
-  gi_log : Forall (ev_ok md) (slog g)
+  gi_log : Forall ev_ok (slog g)
 }.
 
 Ltac zb := repeat match goal with
@@ -77,8 +79,8 @@ Qed.
 
 Lemma GInv_log v0 lo0 md g t op res av tk :
   GInv v0 lo0 md g -> tk = 0 ->
-  ev_ok md {| ev_tid := t; ev_op := op; ev_res := res; ev_avail := av; ev_taken := tk;
-              ev_lower := lower g; ev_sig_active := nonempty (sigl g) |} ->
+  ev_ok {| ev_tid := t; ev_op := op; ev_res := res; ev_avail := av; ev_taken := tk;
+              ev_lower := lower g; ev_maxd := maxd g; ev_sig_active := nonempty (sigl g) |} ->
   GInv v0 lo0 md (log_ev g t op res av tk).
 Proof.
   intros [] -> He. constructor; cbn; try assumption; try lia; try (unfold sum_taken in *; lia). constructor; assumption.
@@ -86,8 +88,8 @@ Qed.
 
 Lemma GInv_take_log v0 lo0 md g t op n :
   GInv v0 lo0 md g -> n <= value g ->
-  ev_ok md {| ev_tid := t; ev_op := op; ev_res := true; ev_avail := value g; ev_taken := n;
-              ev_lower := lower g; ev_sig_active := nonempty (sigl g) |} ->
+  ev_ok {| ev_tid := t; ev_op := op; ev_res := true; ev_avail := value g; ev_taken := n;
+              ev_lower := lower g; ev_maxd := maxd g; ev_sig_active := nonempty (sigl g) |} ->
   GInv v0 lo0 md (log_ev (take g (CAcq n)) t op true (value g) n).
 Proof.
   intros [] Hn He. constructor; cbn; try assumption; try lia; try (unfold sum_taken in *; lia). constructor; assumption.
@@ -116,8 +118,8 @@ Qed.
 
 Lemma fail_op_inv v0 lo0 md t g l :
   GInv v0 lo0 md g -> lwf l ->
-  ev_ok md {| ev_tid := t; ev_op := cur_op l; ev_res := false; ev_avail := value g; ev_taken := 0;
-              ev_lower := lower g; ev_sig_active := nonempty (sigl g) |} ->
+  ev_ok {| ev_tid := t; ev_op := cur_op l; ev_res := false; ev_avail := value g; ev_taken := 0;
+              ev_lower := lower g; ev_maxd := maxd g; ev_sig_active := nonempty (sigl g) |} ->
   GInv v0 lo0 md (fst (fail_op t g l)) /\ lwf (snd (fail_op t g l)).
 Proof.
   intros Hg Hl He. unfold fail_op; cbn [fst snd]. split; [|now apply lwf_done].
@@ -125,7 +127,7 @@ Proof.
 Qed.
 
 Definition sig_op_ok (g : sem_g) (l : sem_l) : Prop :=
-  (exists n, cur_op l = Release n) \/ (exists x, cur_op l = SlSignal x).
+  (exists n, cur_op l = Release n) \/ is_slsig (cur_op l).
 
 Lemma GInv_ghost v0 lo0 md g s : GInv v0 lo0 md g -> GInv v0 lo0 md (set_sigl g s).
 Proof. intros []. constructor; cbn; assumption. Qed.
@@ -136,11 +138,12 @@ Lemma finish_sig_inv v0 lo0 md t g l :
 Proof.
   intros Hg Hl Ho. unfold finish_sig; cbn [fst snd]. split; [|now apply lwf_done].
   apply GInv_log; [now apply GInv_ghost|reflexivity|].
-  destruct Ho as [[n ->]|[x ->]]; cbn; repeat split; lia.
+  destruct Ho as [[n ->]|Ho]; [cbn; repeat split; lia|].
+  destruct (cur_op l); try contradiction; cbn; repeat split; lia.
 Qed.
 
 Definition sig_pc_ok (l : sem_l) (chk : bool) : Prop :=
-  todo l <> [] /\ if chk then exists n, cur_op l = Release n else exists x, cur_op l = SlSignal x.
+  todo l <> [] /\ if chk then exists n, cur_op l = Release n else is_slsig (cur_op l).
 
 Lemma after_resume_inv v0 lo0 md t g l chk k :
   GInv v0 lo0 md g -> lwf l -> sig_op_ok g l -> sig_pc_ok l chk ->
@@ -210,10 +213,18 @@ Proof.
       * apply fail_op_inv; auto. rewrite Hcur. cbn. destruct Hg. split; [reflexivity|]. split; [discriminate|lia].
       * cbn [fst snd]. split; [|now apply lwf_done]. apply GInv_log; auto. cbn. destruct Hg.
         split; [reflexivity|]. split; [lia|reflexivity].
-    + apply notify_inv; auto.
+    + unfold sl_notify. apply notify_inv; auto.
       * destruct Hg. constructor; cbn; try assumption; lia.
-      * right. eauto.
-      * split; [assumption|eauto].
+      * right. rewrite Hcur. exact I.
+      * split; [assumption|rewrite Hcur; exact I].
+    + unfold sl_notify. apply notify_inv; auto.
+      * destruct Hg. constructor; cbn; try assumption; lia.
+      * right. rewrite Hcur. exact I.
+      * split; [assumption|rewrite Hcur; exact I].
+    + unfold sl_notify. apply notify_inv; auto.
+      * destruct Hg. constructor; cbn; try assumption; lia.
+      * right. rewrite Hcur. exact I.
+      * split; [assumption|rewrite Hcur; exact I].
     + cbn [fst snd]. split; [|now apply lwf_done]. destruct (kind w); [|assumption].
       destruct Hg. constructor; cbn; assumption.
   - (* Susp *)
@@ -238,14 +249,14 @@ Proof.
     destruct (is_free g); [|split; assumption].
     destruct Hl as [H1 H2]. pose proof H2 as H2'. unfold pc_ok in H2'. rewrite Hpc in H2'.
     apply notify_inv; [assumption|split; assumption| |].
-    + destruct chk; destruct H2' as [[x Hx] _]; [left; eauto|right; eauto].
+    + destruct chk; destruct H2' as [Hx _]; [left; exact Hx|right; exact Hx].
     + destruct chk; destruct H2' as [Hx Hne]; split; assumption.
   - (* ResWait *)
     destruct (blocked (ag g w)); [|split; assumption].
     destruct Hl as [H1 H2]. pose proof H2 as H2'. unfold pc_ok in H2'. rewrite Hpc in H2'.
     apply after_resume_inv; [|split; assumption| |].
     + destruct Hg. constructor; cbn; assumption.
-    + destruct chk; destruct H2' as [[x Hx] _]; [left; eauto|right; eauto].
+    + destruct chk; destruct H2' as [Hx _]; [left; exact Hx|right; exact Hx].
     + destruct chk; destruct H2' as [Hx Hne]; split; assumption.
 Qed.
 
@@ -281,7 +292,7 @@ Proof.
 Qed.
 
 Theorem log_meaning kind sched v0 lo0 md progs : 0 <= v0 -> wf_progs progs ->
-  forall e, In e (slog (fst (sem_run kind sched v0 lo0 md progs))) -> ev_ok md e.
+  forall e, In e (slog (fst (sem_run kind sched v0 lo0 md progs))) -> ev_ok e.
 Proof.
   intros Hv Hp e He. destruct (sem_safety kind sched v0 lo0 md progs Hv Hp) as [].
   rewrite Forall_forall in gi_log0. now apply gi_log0.
@@ -323,7 +334,7 @@ Theorem false_leaves_count kind o t g l :
      exists e, slog g' = e :: slog g /\ ev_res e = true /\ ev_tid e = t /\ ev_taken e = acquired g' - acquired g) /\
   (forall e, slog g' = e :: slog g -> ev_res e = false -> value g' = value g /\ acquired g' = acquired g).
 Proof.
-  unfold sem_tstep, wait_or_take, fail_op, notify, after_resume, finish_sig, take, taken_of, cond_blocked.
+  unfold sem_tstep, sl_notify, wait_or_take, fail_op, notify, after_resume, finish_sig, take, taken_of, cond_blocked.
   destruct (pc l); [destruct (todo l) as [|[] ?]| | |destruct o| |];
     repeat match goal with
            | |- context [if ?b then _ else _] => destruct b
@@ -334,27 +345,49 @@ Proof.
                              try (injection He as <-; cbn in Hr; try discriminate); split; lia]]).
 Qed.
 
-(* sliding semaphore: the lower limit never decreases, and signal(x) raises it to max(x, lower) *)
-Theorem sliding_signal_monotone_step kind o t g l :
-  lower g <= lower (fst (sem_tstep kind o t g l)).
+(* sliding semaphore: lower_limit_ and max_difference_ are written by two kinds of critical section only.
+   signal(x) (and signal_all = signal(lower_limit_)) raises the lower limit to max(x, lower) and
+   leaves max_difference_; set_max_difference(md, lo) OVERWRITES both (the lower limit may
+   decrease).  So "the lower limit never decreases" holds exactly for the steps that are not the
+   first critical section of a set_max_difference, and between two of those along any run. *)
+Definition at_setmd (l : sem_l) : Prop :=
+  pc l = Idle /\ exists md lo rest, todo l = SlSetMaxDiff md lo :: rest.
+
+Theorem sliding_signal_monotone_step kind o t g l : ~ at_setmd l ->
+  lower g <= lower (fst (sem_tstep kind o t g l)) /\ maxd (fst (sem_tstep kind o t g l)) = maxd g.
 Proof.
-  unfold sem_tstep, wait_or_take, fail_op, notify, after_resume, finish_sig, take, taken_of, cond_blocked.
-  destruct (pc l); [destruct (todo l) as [|[] ?]| | |destruct o| |];
+  intros Hn. destruct l as [td p]. unfold at_setmd in Hn. cbn [pc todo] in Hn.
+  unfold sem_tstep, sl_notify, wait_or_take, fail_op, notify, after_resume, finish_sig, take, taken_of, cond_blocked.
+  cbn [pc todo].
+  destruct p; [destruct td as [|[] ?]| | |destruct o| |];
+    try (exfalso; apply Hn; split; [reflexivity|eauto]; fail);
     repeat match goal with
            | |- context [if ?b then _ else _] => destruct b
            | |- context [match ?x with _ => _ end] => destruct x
-           end; cbn; lia.
+           end; cbn; split; try reflexivity; lia.
 Qed.
 
+(* no step of the schedule s (started in c) is the first critical section of a set_max_difference *)
+Fixpoint quiet (kind : nat -> akind) (s : list (nat * bool)) (c : sem_g * (nat -> sem_l)) : Prop :=
+  match s with
+  | [] => True
+  | so :: s' => ~ at_setmd (snd c (fst so)) /\ quiet kind s' (step (sem_tstep kind) c so)
+  end.
+
 Theorem sliding_signal_monotone kind s1 s2 c :
-  lower (fst (run (sem_tstep kind) s1 c)) <= lower (fst (run (sem_tstep kind) (s1 ++ s2) c)).
+  quiet kind s2 (run (sem_tstep kind) s1 c) ->
+  lower (fst (run (sem_tstep kind) s1 c)) <= lower (fst (run (sem_tstep kind) (s1 ++ s2) c)) /\
+  maxd (fst (run (sem_tstep kind) (s1 ++ s2) c)) = maxd (fst (run (sem_tstep kind) s1 c)).
 Proof.
   rewrite run_app. generalize (run (sem_tstep kind) s1 c). clear c.
-  induction s2 as [|[t o] s IH]; intros c; [cbn; lia|].
-  rewrite run_cons. eapply Z.le_trans; [|apply IH].
-  destruct c as [g ls]. cbn [step fst snd].
-  pose proof (sliding_signal_monotone_step kind o t g (ls t)) as H.
-  destruct (sem_tstep kind o t g (ls t)). exact H.
+  induction s2 as [|[t o] s IH]; intros c Hq; [cbn; split; [lia|reflexivity]|].
+  rewrite run_cons. destruct Hq as [Hn Hq]. cbn [fst] in Hn. specialize (IH _ Hq).
+  assert (Hs : lower (fst c) <= lower (fst (step (sem_tstep kind) c (t, o))) /\
+               maxd (fst (step (sem_tstep kind) c (t, o))) = maxd (fst c)).
+  { destruct c as [g ls]. cbn [step fst snd] in *.
+    pose proof (sliding_signal_monotone_step kind o t g (ls t) Hn) as H.
+    destruct (sem_tstep kind o t g (ls t)). exact H. }
+  destruct IH as [I1 I2]. destruct Hs as [S1 S2]. split; [lia|congruence].
 Qed.
 
 Theorem sliding_signal_sets_max kind o t g l x rest :
@@ -362,18 +395,44 @@ Theorem sliding_signal_sets_max kind o t g l x rest :
   lower (fst (sem_tstep kind o t g l)) = Z.max x (lower g).
 Proof.
   intros Hpc Htd Hh. unfold sem_tstep, is_free. rewrite Hpc, Htd, Hh.
-  unfold notify, after_resume, finish_sig.
+  unfold sl_notify, notify, after_resume, finish_sig.
   repeat match goal with
          | |- context [if ?b then _ else _] => destruct b
          | |- context [match ?x with _ => _ end] => destruct x
          end; cbn; reflexivity.
 Qed.
 
+(* signal_all() = signal(lower_limit_): both fields keep their values (it only notifies) *)
+Theorem sliding_signal_all_keeps kind o t g l rest :
+  pc l = Idle -> todo l = SlSignalAll :: rest -> holder g = None ->
+  lower (fst (sem_tstep kind o t g l)) = lower g /\ maxd (fst (sem_tstep kind o t g l)) = maxd g.
+Proof.
+  intros Hpc Htd Hh. unfold sem_tstep, is_free. rewrite Hpc, Htd, Hh.
+  unfold sl_notify, notify, after_resume, finish_sig.
+  repeat match goal with
+         | |- context [if ?b then _ else _] => destruct b
+         | |- context [match ?x with _ => _ end] => destruct x
+         end; cbn; split; try reflexivity; lia.
+Qed.
+
+(* set_max_difference(md, lo) sets both fields (the lower limit is overwritten, not maximised) *)
+Theorem sliding_set_max_difference_sets kind o t g l md lo rest :
+  pc l = Idle -> todo l = SlSetMaxDiff md lo :: rest -> holder g = None ->
+  lower (fst (sem_tstep kind o t g l)) = lo /\ maxd (fst (sem_tstep kind o t g l)) = md.
+Proof.
+  intros Hpc Htd Hh. unfold sem_tstep, is_free. rewrite Hpc, Htd, Hh.
+  unfold sl_notify, notify, after_resume, finish_sig.
+  repeat match goal with
+         | |- context [if ?b then _ else _] => destruct b
+         | |- context [match ?x with _ => _ end] => destruct x
+         end; cbn; split; reflexivity.
+Qed.
+
 (* sliding wait / try_wait: what the return value means (safety half of sliding_wait_iff) *)
 Theorem sliding_wait_only_if kind sched v0 lo0 md progs : 0 <= v0 -> wf_progs progs ->
   forall e, In e (slog (fst (sem_run kind sched v0 lo0 md progs))) ->
-  (forall u, ev_op e = SlWait u -> u - md <= ev_lower e) /\
-  (forall u, ev_op e = SlTryWait u -> (ev_res e = true <-> u - md <= ev_lower e)).
+  (forall u, ev_op e = SlWait u -> u - ev_maxd e <= ev_lower e) /\
+  (forall u, ev_op e = SlTryWait u -> (ev_res e = true <-> u - ev_maxd e <= ev_lower e)).
 Proof.
   intros Hv Hp e He. pose proof (log_meaning kind sched v0 lo0 md progs Hv Hp e He) as H.
   unfold ev_ok in H. split; intros u Ho; rewrite Ho in H; tauto.
